@@ -15,7 +15,8 @@ from . import inv, snap
 from .core import failure
 from .snap import kind
 
-NAMES = ["a", "b", "c"]
+NAMES = ["a", "b", "c", "7"]
+BLANKS = [None, "", " ", "\t", " \n "]
 TYPES = ["t", "t", "u"]
 MAX_UNIVERSE = 22
 
@@ -148,6 +149,12 @@ class Engine(object):
         op, a, b, c, name, flag = st_
         info = {"op": op, "raised": None, "must_refuse": False, "cls": [], "skipped": False}
         U = self.U
+        # what is handed to the library as the name: the text, or for "7" sometimes the int 7
+        # (a name is always text; the model keeps working with the text)
+        given = 7 if (name == "7" and (a + b + c) % 2 == 0) else name
+        if given == 7 and op in ("new_sec", "new_prop", "new_sec_parent", "new_prop_parent", "create_section",
+                                 "create_property", "rename", "ctor_id"):
+            info["cls"].append("name:given_as_int")
 
         def call(fn):
             try:
@@ -164,12 +171,12 @@ class Engine(object):
             if self.full():
                 info["skipped"] = True
                 return info
-            call(lambda: self.add(odml.Section(name=name, type=TYPES[a % 3])))
+            call(lambda: self.add(odml.Section(name=given, type=TYPES[a % 3])))
         elif op == "new_prop":
             if self.full():
                 info["skipped"] = True
                 return info
-            call(lambda: self.add(odml.Property(name=name, values=[a % 5])))
+            call(lambda: self.add(odml.Property(name=given, values=[a % 5])))
         elif op in ("new_sec_parent", "new_prop_parent"):
             if self.full():
                 info["skipped"] = True
@@ -180,9 +187,9 @@ class Engine(object):
             info["must_refuse"] = self.would_clash(par, probe)
             before = {id(o) for o in self.all_children()}
             if op == "new_sec_parent":
-                call(lambda: self.add(odml.Section(name=name, type=TYPES[b % 3], parent=par)))
+                call(lambda: self.add(odml.Section(name=given, type=TYPES[b % 3], parent=par)))
             else:
-                call(lambda: self.add(odml.Property(name=name, values=[1], parent=par)))
+                call(lambda: self.add(odml.Property(name=given, values=[1], parent=par)))
             if info["raised"] is None:
                 pass
             else:
@@ -201,6 +208,7 @@ class Engine(object):
                 kids = self.children(cont, "sec") + self.children(cont, "prop")
                 kid = kids[b % len(kids)]
                 name = kid.name
+                given = 7 if (name == "7" and flag) else name
                 which = "create_section" if kind(kid) == "sec" else "create_property"
             else:
                 cont = self.pick(a, ("doc", "sec")) if op == "create_section" else self.pick(a, ("sec",))
@@ -211,10 +219,10 @@ class Engine(object):
             before = {id(o) for o in self.all_children()}
             if which == "create_section":
                 info["must_refuse"] = any(s.name == name for s in self.children(cont, "sec"))
-                call(lambda: self.add(cont.create_section(name, "t")))
+                call(lambda: self.add(cont.create_section(given, "t")))
             else:
                 info["must_refuse"] = any(s.name == name for s in self.children(cont, "prop"))
-                call(lambda: self.add(cont.create_property(name, [1])))
+                call(lambda: self.add(cont.create_property(given, [1])))
             if info["raised"] is not None:
                 self._adopt_new(before)
         elif op in ("append", "x_clash_append", "x_cycle_append", "x_attached_append"):
@@ -326,6 +334,9 @@ class Engine(object):
                 lst = cont.sections if k == "sec" else cont.properties
                 info["must_refuse"] = True
                 info["cls"].append("setitem:clash_other_sibling")
+                if flag:
+                    pos = self.children(cont, k)[pos].name
+                    info["cls"].append("setitem:key_is_name")
             elif op == "x_setitem_own":
                 conts = [o for o in U if kind(o) in ("doc", "sec") and len(self.children(o, "sec")) >= 2]
                 if not conts:
@@ -351,6 +362,9 @@ class Engine(object):
                 if kids and -len(kids) <= pos < len(kids) and all(obj is not x for x in kids):
                     repl = kids[pos]
                     info["must_refuse"] = self.would_clash(cont, obj, exclude=repl)
+                    if (a + b) % 2:
+                        pos = repl.name
+                        info["cls"].append("setitem:key_is_name")
             self._classify_attach(info, cont, obj)
 
             def do():
@@ -381,18 +395,21 @@ class Engine(object):
                 new = other.name
                 info["must_refuse"] = True
                 info["cls"].append("rename:to_sibling")
+                if new == "7" and flag:
+                    new = 7
+                    info["cls"].append("rename:to_sibling_given_as_int")
             else:
                 obj = self.pick(a, ("sec", "prop"))
                 if obj is None:
                     info["skipped"] = True
                     return info
-                new = name if op == "rename" else (None if flag else "")
+                new = given if op == "rename" else BLANKS[c % len(BLANKS)]
                 if op == "rename_empty":
-                    info["cls"].append("rename:none_or_empty")
+                    info["cls"].append("rename:none_or_empty" if not new else "rename:blank")
                 par = obj._parent
                 if new and par is not None:
                     sib = self.children(par, kind(obj))
-                    info["must_refuse"] = any(s is not obj and s.name == new for s in sib)
+                    info["must_refuse"] = any(s is not obj and s.name == str(new) for s in sib)
             old_id = obj.id
 
             def do():
@@ -487,9 +504,9 @@ class Engine(object):
 
             def do():
                 if which == 0:
-                    made.append(odml.Section(name=name, type="t", oid=text))
+                    made.append(odml.Section(name=given, type="t", oid=text))
                 elif which == 1:
-                    made.append(odml.Property(name=name, values=[1], oid=text))
+                    made.append(odml.Property(name=given, values=[1], oid=text))
                 else:
                     made.append(odml.Document(oid=text))
             call(do)
@@ -503,8 +520,8 @@ class Engine(object):
             if self.full():
                 info["skipped"] = True
                 return info
-            empty = "" if flag else None
-            info["cls"].append("ctor:name_none_or_empty")
+            empty = BLANKS[c % len(BLANKS)]
+            info["cls"].append("ctor:name_none_or_empty" if not empty else "ctor:name_blank")
             made = []
             cont = self.pick(b, ("sec",))
 
@@ -521,7 +538,7 @@ class Engine(object):
             call(do)
             if made:
                 self.add(made[0])
-                if made[0].name != made[0].id:
+                if not empty and made[0].name != made[0].id:
                     info["name_fallback_failed"] = (repr(empty), made[0].name)
         elif op in ("x_ctor_bad_card", "x_ctor_clash"):
             if self.full():
